@@ -7,8 +7,8 @@ use crate::ug::build::*;
 use serde_json::{Value, json};
 
 pub const CAPTURES: [&str; 10] = ["none", "param", "let", "patvar", "ref", "closure", "topfn", "string-let", "fn-param", "fn-alias"];
-pub const FLOWS: [&str; 19] = [
-    "struct-field-second", "struct-field-third",
+pub const FLOWS: [&str; 22] = [
+    "nested-tuple", "tuple-of-holder-var", "tuple-of-call-result", "struct-field-second", "struct-field-third",
     "let-call", "rebind", "tuple-elem", "struct-field", "struct-field-direct", "array-elem", "ref-content", "vec-elem", "returned-from-fn",
     "returned-from-closure", "argument", "if-result", "match-result", "generic-apply", "argument-twice", "tuple-direct", "stored-then-passed",
 ];
@@ -215,6 +215,31 @@ pub fn build(caps: &[&str], flow: &str, variant: &str, nesting: usize) -> Option
                 E::Call(Box::new(E::Field(Box::new(v(h)), "f".into())), vec![arg(7)])
             }
         }
+        "nested-tuple" | "tuple-of-holder-var" | "tuple-of-call-result" => {
+            // the closure sits one level down inside the tuple that is built: a nested tuple literal, a
+            // variable of tuple-of-closure type, or the result of a call returning such a tuple
+            let t = cx.n.fresh("t");
+            let g = cx.n.fresh("g");
+            let inner_ty = Ty::Tuple(vec![fn_ty(), Ty::i32()]);
+            let outer = match flow {
+                "nested-tuple" => E::Tuple(vec![E::Tuple(vec![v(c), int(1)]), int(2)]),
+                "tuple-of-holder-var" => {
+                    let pr = cx.n.fresh("pr");
+                    b.push(let_(pr, E::Tuple(vec![v(c), int(1)])));
+                    E::Tuple(vec![v(pr), int(2)])
+                }
+                _ => {
+                    let q = cx.n.fresh("q");
+                    cx.items.push(fn_def("wrap_pair", vec![(q, fn_ty())], Some(inner_ty.clone()), E::Tuple(vec![v(q), int(1)])));
+                    E::Tuple(vec![call("wrap_pair", vec![v(c)]), int(2)])
+                }
+            };
+            b.push(let_t(t, Ty::Tuple(vec![inner_ty.clone(), Ty::i32()]), outer));
+            let inner = cx.n.fresh("inner");
+            b.push(let_t(inner, inner_ty, E::Proj(Box::new(v(t)), 0)));
+            b.push(let_(g, E::Proj(Box::new(v(inner)), 0)));
+            E::Call(Box::new(v(g)), vec![arg(7)])
+        }
         "struct-field-second" | "struct-field-third" => {
             // the function-typed field is not the first field of the struct
             let mut fields = vec![("n".to_string(), Ty::i32())];
@@ -386,7 +411,7 @@ impl Family for Closures {
         &["C08", "C01", "C02", "C03", "C04"]
     }
     fn rule(&self) -> &'static str {
-        "capture sets (all singles over {none, fn param, let, pattern variable, Ref cell, another closure, top-level fn, string let, function-typed parameter called in callee position only, local alias of a top-level fn called in callee position only}; selected pairs in quick, all pairs in thorough) x 19 flows of the closure value from creation to call (let, rebind, tuple element, struct field in first / second / third position, array element, Ref content, Vec element, returned from fn, returned from closure, argument, argument called twice, branch result of if/match, generic apply, …) x variants {plain, captured name shadowed after creation, captured Ref mutated from both sides, called twice} x nesting depth 1 (thorough: 1-2). non-trivial = programs whose closure captures at least one variable; distinct = distinct source text"
+        "capture sets (all singles over {none, fn param, let, pattern variable, Ref cell, another closure, top-level fn, string let, function-typed parameter called in callee position only, local alias of a top-level fn called in callee position only}; selected pairs in quick, all pairs in thorough) x 22 flows of the closure value from creation to call (let, rebind, tuple element, nested tuple literal / tuple of a tuple-typed variable / tuple of a call result, struct field in first / second / third position, array element, Ref content, Vec element, returned from fn, returned from closure, argument, argument called twice, branch result of if/match, generic apply, …) x variants {plain, captured name shadowed after creation, captured Ref mutated from both sides, called twice} x nesting depth 1 (thorough: 1-2). non-trivial = programs whose closure captures at least one variable; distinct = distinct source text"
     }
     fn cases(&self, tier: Tier) -> Box<dyn Iterator<Item = Value> + '_> {
         let mut v = Vec::new();
